@@ -158,7 +158,11 @@ func main() {
 				viol(sim, "proof-invalid-after-revert/"+suffix, fmt.Sprintf("after reverting a block containing {%s}, %d stored element(s) do not verify against the parent state, e.g. %s", suffix, len(bad), bad[0]), beh, i)
 			}
 			// (b) revert diffs are the apply diffs reversed
-			ru := consensus.RevertBlock(a.Prev, a.Block, a.Supp)
+			var ru consensus.RevertUpdate
+			if p, v := vlib.Recover(func() { ru = consensus.RevertBlock(a.Prev, a.Block, a.Supp) }); p {
+				viol(sim, "revert-panics/"+suffix, fmt.Sprintf("RevertBlock of an applied block containing {%s} panics: %v", suffix, v), beh, i)
+				return
+			}
 			if msg := reversed(a.Update, ru); msg != "" {
 				viol(sim, "revert-diffs-not-reversed-apply-diffs/"+suffix, msg, beh, i)
 			}
